@@ -6,7 +6,7 @@ from concurrent.futures import ProcessPoolExecutor
 
 HERE = os.path.dirname(os.path.dirname(os.path.abspath(__file__)))
 sys.path.insert(0, HERE)
-PIDS = [f"C{i:02d}" for i in range(1, 18)]
+PIDS = os.environ["VERIF_PIDS"].split(",") if os.environ.get("VERIF_PIDS") else [f"C{i:02d}" for i in range(1, 18)]
 
 
 def prepare(patch, base):
